@@ -140,7 +140,7 @@ def _model_check_compute(quick):
     if quick:
         # -coverage doubles the cost of a run: only one run per tier collects the per-action
         # statistics, every run is checked for vacuity by the depth of its state graph (see below)
-        jobs += [(mn, 3, False) for mn in _menus(R, w, 2, 2)]
+        jobs += [(mn, 3, False) for mn in _menus(R, w, 2, 2)[1:]]     # [0] is the hand-written pair
         jobs += [(mn, 2, False) for mn in _menus(R, w, 5, 1)]
         jobs += [(mn, 2, True) for mn in _menus(R, w, 2, 1)]
     else:
@@ -161,7 +161,7 @@ def _model_check_compute(quick):
         with open(fn, "w") as f:
             json.dump({"init": init, "menu": menus}, f)
         return tlc.run("MagicMemMC", cfg_text=_mc_cfg(2, w, maxreq), env={"VERIF_INPUT": fn},
-                       coverage=cov, workers=max(2, ncpu // par), timeout=3000, heap="2g")
+                       coverage=cov, workers=max(2, min(4, ncpu // par)), timeout=3000, heap="2g")
 
     try:
         with ThreadPoolExecutor(max_workers=par) as ex:
